@@ -198,6 +198,18 @@ def validate_file(spec, header, rows):
         raise Unstable(f"first {k1[:6]} second {k2[:6]}")
     if not before.astype(object).equals(tab.dataframe.astype(object)) or list(before.index) != list(tab.dataframe.index):
         raise Unstable("table changed by validation")
+    # one validator object used for a file that leaves every definition's event open, then for this file: the verdict
+    # on this file must not depend on what the validator saw before
+    from hed.validator.spreadsheet_validator import SpreadsheetValidator
+    reused = SpreadsheetValidator(hedenv.schema(VERSION))
+    names = [e.name for e in def_dict().defs.values() if not e.takes_value]
+    primer_text = "onset\tduration\tHED\n" + "".join(f"{1.0 + i}\tn/a\t(Def/{n}, Onset)\n" for i, n in enumerate(names))
+    primer = TabularInput(io.StringIO(primer_text), name="primer")
+    reused.validate(primer, def_dict(), "primer")
+    third = reused.validate(tab, tab._mapper.get_def_dict(hedenv.schema(VERSION), def_dict()), "tab")
+    k3 = sorted(map(_stable_key, third))
+    if k1 != k3:
+        raise Unstable(f"fresh validator {k1[:6]} validator that validated another file before {k3[:6]}")
     return first
 
 
